@@ -18,7 +18,9 @@
 (* name), unit, prefix (long or short), quantity, substance (a sequence of *)
 (* properties, each an input and an output body), category.  Numbers are   *)
 (* small rationals n/q with a dimension vector, so that the database the   *)
-(* loader produces can be computed in the model.                           *)
+(* loader produces can be computed in the model.  A substance may carry a   *)
+(* symbol (`!symbol`); a name that has no other reading is read as a       *)
+(* chemical formula over the symbols (core/src/parsing/formula.rs).        *)
 (*                                                                         *)
 (* Every action is  enabling condition /\ Assign(state function), so that  *)
 (* the same definitions give RunF, the loader as a function, used by       *)
@@ -103,6 +105,29 @@ Flatten(ss) == IF ss = <<>> THEN <<>> ELSE Head(ss) \o Flatten(Tail(ss))
 Range(s) == {s[i] : i \in DOMAIN s}
 
 -----------------------------------------------------------------------------
+(* chemical formulas (parsing/formula.rs): element symbols - an upper case letter, optionally one lower case
+   letter - each optionally followed by a count *)
+
+IsUpper(c) == c >= 65 /\ c <= 90
+IsLower(c) == c >= 97 /\ c <= 122
+IsDigit(c) == c >= 48 /\ c <= 57
+RECURSIVE FormulaSyms(_)
+FormulaSyms(s) ==      \* [ok, syms]: the symbols of a formula in order, counts dropped (formula::symbols)
+  IF s = <<>> THEN [ok |-> TRUE, syms |-> <<>>]
+  ELSE IF IsUpper(s[1])
+       THEN LET n == IF Len(s) >= 2 /\ IsLower(s[2]) THEN 2 ELSE 1
+                r == FormulaSyms(DropSeq(s, n))
+            IN [ok |-> r.ok, syms |-> <<SubSeq(s, 1, n)>> \o r.syms]
+  ELSE IF IsDigit(s[1]) THEN FormulaSyms(Tail(s))
+  ELSE [ok |-> FALSE, syms |-> <<>>]
+
+\* The two links of the dependency resolver that rink-rs lacked before commits 3701c96 and 479bb55 (a reference
+\* through the long name of a base unit, a reference through a chemical formula).  Configurations replace them by
+\* FALSE to show that the design without them violates ForwardRefsResolve (non-vacuity of that invariant).
+LinkLongNames == TRUE
+LinkFormulas == TRUE
+
+-----------------------------------------------------------------------------
 (* numbers: n/q (q > 0, not reduced) with a total dimension vector *)
 
 DZero == [b \in BaseNames |-> 0]
@@ -122,6 +147,7 @@ NIsOne(a) == a.n = a.q /\ a.d = DZero
 (* lookup_with_prefix then tries every prefix definition in key order and  *)
 (* takes the first whose remainder is defined (visiting the remainder,     *)
 (* then the prefix); lookup finally retries without a plural "s".          *)
+(* A name without any of these readings is tried as a chemical formula.   *)
 (* All of this looks at `input` only, never at the marks.                  *)
 
 ExactNs(ctxns) == IF ctxns = NsQuantity THEN <<NsQuantity>> ELSE <<NsUnit, NsPrefix, NsQuantity>>
@@ -145,11 +171,20 @@ WithPrefixTargets(inp, name, ctxns) ==    \* [found, ids]
   LET ex == ExactTarget(inp, name, ctxns) IN
   IF ex # <<>> THEN ex ELSE FirstPrefixSplit(inp, name, ctxns, PrefixIds(inp, name))
 
+\* Resolver::lookup_formula: the substances the symbols of a formula stand for (Resolver.symbols is keyed by
+\* symbol; sets in which two substances share a symbol are not uniquely named)
+SymIds(inp, sym) == {x \in DOMAIN inp : x.ns = NsUnit /\ inp[x].kind = "subst" /\ inp[x].sym = sym}
+FormulaTargets(inp, name) ==
+  LET f == FormulaSyms(name) IN
+  IF ~f.ok \/ \E i \in DOMAIN f.syms : SymIds(inp, f.syms[i]) = {} THEN <<>>
+  ELSE [i \in DOMAIN f.syms |-> MinId(SymIds(inp, f.syms[i]))]
+
 VisitTargets(inp, name, ctxns) ==
   LET a == WithPrefixTargets(inp, name, ctxns) IN
   IF a # <<>> THEN a
-  ELSE IF EndsWithS(name) THEN WithPrefixTargets(inp, StripS(name), ctxns)
-  ELSE <<>>
+  ELSE LET b == IF EndsWithS(name) THEN WithPrefixTargets(inp, StripS(name), ctxns) ELSE <<>> IN
+       IF b # <<>> THEN b
+       ELSE IF LinkFormulas THEN FormulaTargets(inp, name) ELSE <<>>
 
 RECURSIVE NamesTargets(_, _, _)
 NamesTargets(inp, names, ctxns) ==
@@ -173,7 +208,7 @@ Deps(inp, id) == NamesTargets(inp, Mentions(inp[id]), id.ns)
 (* the registry *)
 
 EmptyDb == [base |-> {}, longs |-> EmptyMap, units |-> EmptyMap, defs |-> EmptyMap, prefixes |-> <<>>,
-            plookup |-> EmptyMap, quants |-> EmptyMap, qnames |-> EmptyMap, subst |-> EmptyMap,
+            plookup |-> EmptyMap, quants |-> EmptyMap, qnames |-> EmptyMap, subst |-> EmptyMap, symbols |-> EmptyMap,
             docs |-> EmptyMap, cats |-> EmptyMap, catnames |-> EmptyMap, temps |-> EmptyMap, silent |-> FALSE]
 
 Res(ok, v) == [ok |-> ok, v |-> v]
@@ -201,13 +236,33 @@ DbLookup(d, name) ==
   ELSE IF EndsWithS(name) THEN DbWithPrefix(d, StripS(name))
   ELSE Fail
 
+\* eval_expr of a name that is no unit (runtime/eval.rs:30-58): a substance by name, by symbol, or composed from a
+\* formula (formula.rs: every symbol known, no stray count, every element with a molar_mass in kg / mol)
+N_kg == <<107, 103>>
+N_mol == <<109, 111, 108>>
+N_molar_mass == <<109, 111, 108, 97, 114, 95, 109, 97, 115, 115>>
+MolarDim == [b \in BaseNames |-> IF b = N_kg THEN 1 ELSE IF b = N_mol THEN -1 ELSE 0]
+HasMolarMass(d, sub) ==
+  /\ Has(d.subst[sub], N_molar_mass)
+  /\ {N_kg, N_mol} \subseteq BaseNames
+  /\ LET p == d.subst[sub][N_molar_mass] IN [b \in BaseNames |-> p.out.d[b] - p.inp.d[b]] = MolarDim
+FormulaOk(d, name) ==
+  LET f == FormulaSyms(name) IN
+  /\ f.ok /\ ~IsDigit(name[1])
+  /\ \A i \in DOMAIN f.syms : Has(d.symbols, f.syms[i]) /\ Has(d.subst, d.symbols[f.syms[i]])
+                               /\ HasMolarMass(d, d.symbols[f.syms[i]])
+IsSubstance(d, name) ==
+  \/ Has(d.subst, name)
+  \/ (Has(d.symbols, name) /\ Has(d.subst, d.symbols[name]))
+  \/ FormulaOk(d, name)
+
 \* Context::eval of a body: [t: "num" | "err" | "other", v]
 RECURSIVE EvalIds(_, _, _)
 EvalIds(d, ids, acc) ==
   IF ids = <<>> THEN [t |-> "num", v |-> acc]
   ELSE LET r == DbLookup(d, Head(ids)) IN
        IF r.ok THEN EvalIds(d, Tail(ids), NMulV(acc, r.v))
-       ELSE IF Has(d.subst, Head(ids)) THEN [t |-> "other", v |-> acc]   \* a substance value: not modelled
+       ELSE IF IsSubstance(d, Head(ids)) THEN [t |-> "other", v |-> acc]   \* a substance value: not modelled
        ELSE [t |-> "err", v |-> acc]
 
 EvalBody(d, body) == EvalIds(d, body.ids, Num(body.c, 1, DZero))
@@ -285,7 +340,9 @@ EvalDef(d, id, def) ==
     [] def.kind = "subst" ->
          LET r == EvalProps(d, def.props, EmptyMap, EmptyMap, 0) IN
          \* ctx.temporaries.clear() (load.rs:546): whatever happened
-         IF r.ok THEN <<[d EXCEPT !.subst = Put(@, def.name, r.props)], Repeat(Err("propconflict", id), r.warns)>>
+         IF r.ok THEN <<[d EXCEPT !.subst = Put(@, def.name, r.props),
+                                  !.symbols = IF def.sym # NoName THEN Put(@, def.sym, def.name) ELSE @],
+                        Repeat(Err("propconflict", id), r.warns)>>
          ELSE <<d, Repeat(Err("propconflict", id), r.warns) \o <<Err("subst", id)>>>>
     [] def.kind = "category" -> <<[d EXCEPT !.catnames = Put(@, def.name, def.disp)], <<>>>>
     [] OTHER -> <<d, <<Err("deferror", id)>>>>
@@ -307,6 +364,8 @@ PostCats(d, errs, ids, rc) ==
 (* the steps, as functions of the state record *)
 
 Top(s) == s.stack[Len(s.stack)]
+\* a key of `input` that is the long name of a base unit (Resolver.long_names)
+IsLongKey(inp, id) == id \in DOMAIN inp /\ inp[id].kind = "base" /\ inp[id].long = id.name /\ inp[id].name # id.name
 Pop(st) == SubSeq(st, 1, Len(st) - 1)
 Frame(id, pc, deps) == [id |-> id, pc |-> pc, deps |-> deps]
 
@@ -324,7 +383,8 @@ EnInsert(s) == s.phase = "insert" /\ s.todo # <<>>
 DoInsert(s) ==
   LET def == Head(s.todo)
       id == IdOf(def)
-      \* a base unit's long name is a second key for the same definition (not put into unmarked)
+      \* a base unit's long name is a second key for the same definition (not put into unmarked; Resolver.long_names
+      \* leads from it to the base unit)
       in1 == IF def.kind = "base" /\ def.long # NoName THEN Put(s.input, Id(NsUnit, def.long), def) ELSE s.input
       dup == id \in DOMAIN in1
   IN [s EXCEPT !.todo = Tail(s.todo),
@@ -350,7 +410,9 @@ DoVisitEnter(s) ==
      THEN [s EXCEPT !.errors = Append(@, Err("cycle", id)), !.cut = @ \cup {<<from, id>>}, !.stack = Pop(@)]
      ELSE IF id \in s.unmarked
      THEN [s EXCEPT !.temp = @ \cup {id}, !.stack = Append(Pop(@), Frame(id, "deps", Deps(s.input, id)))]
-     ELSE [s EXCEPT !.stack = Pop(@)]        \* already emitted, or a long name: nothing to do
+     ELSE IF LinkLongNames /\ IsLongKey(s.input, id)
+     THEN [s EXCEPT !.stack = Append(Pop(@), Frame(IdOf(s.input[id]), "enter", <<>>))]   \* a long name: visit the base unit
+     ELSE [s EXCEPT !.stack = Pop(@)]        \* already emitted: nothing to do
 
 \* load.rs:109-136 / 65-107: the next visit call made from inside the definition being visited
 EnDepStep(s) == s.phase = "sort" /\ s.stack # <<>> /\ Top(s).pc = "deps" /\ Top(s).deps # <<>>
@@ -465,8 +527,9 @@ TopoOrder ==
                       \/ <<sorted[i], t>> \in cut
 
 \* The same without the exclusion: the definition *behind* every key a definition leads to (for a long name, the
-\* base unit) is emitted first.  The code does not have this property (a unit that mentions a base unit by its
-\* long name is emitted first when its own name sorts first): MC_Loader_longname.cfg shows the counterexample.
+\* base unit) is emitted first.  Without LinkLongNames the design does not have this property (a unit that
+\* mentions a base unit by its long name is emitted first when its own name sorts first): MC_Loader_longname.cfg
+\* shows the counterexample; rink-rs was repaired in commit 3701c96.
 Behind(t) == IdOf(input[t])
 TopoOrderStrict ==
   phase = "post" =>
@@ -474,6 +537,16 @@ TopoOrderStrict ==
     \A t \in Range(Deps(input, sorted[i])) :
       \/ (Behind(t) \in Emitted /\ PosIn(sorted, Behind(t)) < i)
       \/ <<sorted[i], t>> \in cut
+
+\* C12, "forward references resolve", as the property states it (no resolver in sight): a definition is refused
+\* only if it would also be refused as the LAST definition of the load, evaluated when everything else the set
+\* defines is in the database.  A definition refused for a name that the set does define - in whatever order,
+\* file, or spelling (long name of a base unit, prefix + unit, plural, element symbol, chemical formula) - is a
+\* forward reference that was not resolved.
+FailKinds == {"malformed", "prefix", "quantity", "subst"}
+Refused(errs, id) == \E i \in DOMAIN errs : errs[i].k \in FailKinds /\ errs[i].ns = id.ns /\ errs[i].name = id.name
+ForwardRefsResolve ==
+  Done => \A d \in defset : Refused(errors, IdOf(d)) => Refused(EvalDef(db, IdOf(d), d)[2], IdOf(d))
 
 \* dependency graph over the definitions, reachability in >= 1 steps
 Edge(a, b) == b \in Range(Deps(input, a))
@@ -495,7 +568,9 @@ CycleReported ==
 \* Termination of a sequential program: a measure that decreases lexicographically with every step.
 \* (phase, list entries left, definitions not yet entered, definitions not yet emitted, stack empty, pending calls)
 RECURSIVE StackWork(_)
-StackWork(st) == IF st = <<>> THEN 0 ELSE 1 + 2 * Len(Head(st).deps) + StackWork(Tail(st))
+StackWork(st) ==
+  IF st = <<>> THEN 0
+  ELSE 1 + 3 * Len(Head(st).deps) + (IF Head(st).pc = "enter" /\ IsLongKey(input, Head(st).id) THEN 1 ELSE 0) + StackWork(Tail(st))
 PhaseRank ==
   CASE phase = "files" -> 5 [] phase = "insert" -> 4 [] phase = "sort" -> 3 [] phase = "eval" -> 2
     [] phase = "post" -> 1 [] OTHER -> 0
@@ -515,6 +590,7 @@ CanonSeq(D) == IF D = {} THEN <<>>
 
 UniquelyNamed(D) == \A d, e \in D : d # e => /\ IdOf(d) # IdOf(e)
                                               /\ (d.kind = "base" /\ d.long # NoName => Id(NsUnit, d.long) # IdOf(e))
+                                              /\ (d.kind = "subst" /\ e.kind = "subst" /\ d.sym # NoName => d.sym # e.sym)
 
 \* C12: the database (and the reported problems) of every order and every split of a uniquely named set is the
 \* one the canonical order gives
